@@ -330,3 +330,7 @@ def replay_undriven_actual(payload):
 
     rc, out = _run_design(_DESIGN)
     return {"reproduced": rc == 0 and "UNDRIVEN" in out, "detail": out[-300:]}
+
+
+# C13 ("views ... keep the same root"): an actual that is a VIEW of an intermediate keeps the ROOT intermediate alive
+contract("cohdl._compiler.frontend._generate_ir:ConvertInstance.apply", ("C13",))
